@@ -385,7 +385,13 @@ func c15Compare(want, got *c15Snap, leg, at string, out *[]c15Diff) {
 		add(0, "duplicate-entries", "", strings.Join(got.Dups, ", "))
 	}
 	if want.Meta != got.Meta {
-		add(0, "metadata-differs", "", fmt.Sprintf("expected %s, got %s", want.Meta, got.Meta))
+		if strings.Contains(want.Meta, "\u0085") && !strings.Contains(got.Meta, "\u0085") {
+			// U+0085 (NEXT LINE) is a line break to a YAML 1.1 reader; the only strings that can still hold it after
+			// validation are the unsanitised ones (annotations, import-values)
+			add(1, "metadata-differs", "string-with-U+0085-next-line", fmt.Sprintf("expected %s, got %s", want.Meta, got.Meta))
+		} else {
+			add(0, "metadata-differs", "", fmt.Sprintf("expected %s, got %s", want.Meta, got.Meta))
+		}
 	}
 	switch {
 	case want.HasValues && !got.HasValues:
@@ -416,6 +422,8 @@ func c15Compare(want, got *c15Snap, leg, at string, out *[]c15Diff) {
 			add(rank, "lock-lost", "apiVersion-"+want.API, "expected "+want.Lock)
 		case want.Lock == "<none>":
 			add(0, "lock-appeared", "", "got "+got.Lock)
+		case strings.Contains(want.Lock, "\u0085") && !strings.Contains(got.Lock, "\u0085"):
+			add(1, "lock-differs", "string-with-U+0085-next-line", fmt.Sprintf("expected %s, got %s", want.Lock, got.Lock))
 		default:
 			add(0, "lock-differs", "", fmt.Sprintf("expected %s, got %s", want.Lock, got.Lock))
 		}
